@@ -61,6 +61,9 @@ struct sigaction old_sigsegv_exception_handler;
 struct sigaction old_sigbus_exception_handler;
 int exception_handler_usecount = 0;
 pthread_mutex_t exception_handler_mutex = PTHREAD_MUTEX_INITIALIZER;
+#ifdef YARA_VERIF
+void (*yr_verif_trycatch_hook)(int kind, int usecount) = NULL;
+#endif
 #endif
 
 static int init_count = 0;
